@@ -541,5 +541,5 @@ def rule_sumdist(run):
 def check(run):
     run.guarded('TWIN', rule_twin)
     run.guarded('SUMDIST', rule_sumdist)
-    run.guarded('PRED', lambda r: rule_pred(r, floor=10))
+    run.guarded('PRED', lambda r: rule_pred(r, floor=8, only=('mulgrid.block_name_list_layer_column', 'mulgrid.block_name_list_dmplex', 'mulgrid.setup_block_connection_name_index', 'mulgrid.set_column_num_layers', 'mulgrid.block_surface', 'mulgrid.block_centre', 't2grid.add_connections')))
     run.guarded('DIM', rule_dim)
